@@ -18,7 +18,7 @@ ASSUMPTIONS = [
 NSHARDS = {"quick": 32, "thorough": 64}
 BUDGET_S = {"quick": 200, "thorough": 1500}
 MIN_HITS = {
-    'quick': {"exh2": 32768, "exh1": 128, "grammar_accepted": 2625, "trunc_case": 22287, "prefix": 51, "encode": 43, "tx_embed": 1203},
+    'quick': {"exh2": 32768, "exh1": 128, "grammar_accepted": 3393, "trunc_case": 22242, "prefix": 51, "encode": 299, "tx_embed": 1203},
     'thorough': {"exh2": 39321, "exh1": 153, "grammar_accepted": 256015, "trunc_case": 507756, "prefix": 61, "encode": 53, "tx_embed": 102633},
 }
 
@@ -88,6 +88,19 @@ def cases(ctx):
     for v in range(S, 256, N):
         for pos, sc in (("lead", bytes([v, 0x51, 0x52])), ("mid", bytes([0x51, v, 0x52])), ("trail", bytes([0x51, 0x52, v]))):
             yield {"k": "script", "hex": sc.hex(), "tag": "opbyte"}
+    # the from_chunks / from_hex entry points: the same bytes cut at arbitrary offsets (also inside a push) must parse identically
+    for i in range(300 if thorough else 24):
+        toks = gen.gen_tokens(r, r.choice([2, 4, 8, 16]), depth=2, minimal=False, push_lens=[1, 2, 5, 20, 75, 76, 255, 256])
+        b = wire.detok(toks)
+        if not b:
+            continue
+        cuts = sorted(r.randrange(len(b) + 1) for _ in range(r.choice([1, 1, 2, 4])))
+        yield {"k": "script", "hex": b.hex(), "tag": "via_chunks", "must_accept": True, "via": "chunks", "cuts": cuts}
+        yield {"k": "script", "hex": b.hex(), "tag": "via_hex", "must_accept": True, "via": "hex"}
+    # encode_pushdata for every one-byte payload value (the form must not depend on the value) and a few two-byte values
+    for v in range(S, 256, N):
+        yield {"k": "encode", "hex": "%02x" % v}
+        yield {"k": "encode", "hex": "%02x%02x" % (v, (v * 7 + 1) & 0xFF)}
     # push-prefix helper and encode_pushdata
     pl = [1, 2, 74, 75, 76, 77, 254, 255, 256, 257, 65534, 65535, 65536, 65537, 65538, 1 << 20, (1 << 24) - 1, 1 << 24, (1 << 31) - 1, 1 << 31, (1 << 32) - 2, (1 << 32) - 1]
     pl += [r.randrange(1, 1 << 32) for _ in range(40)] + [r.randrange(1, 70000) for _ in range(40)]
@@ -223,7 +236,12 @@ def judge(ctx, case):
         raw = bytes.fromhex(case["hex"])
         ctx.hit(case.get("tag", "script").split(":")[0])
         big = len(raw) > 100000
-        r = ctx.call({"op": "script_decode", "hex": case["hex"]})
+        rq = {"op": "script_decode", "hex": case["hex"]}
+        if case.get("via"):
+            rq["via"] = case["via"]
+            if "cuts" in case:
+                rq["cuts"] = case["cuts"]
+        r = ctx.call(rq)
         if "ok" in r:
             judge_script(ctx, case, raw, True, bytes.fromhex(r["ok"]["bytes"]), r["ok"]["tokens"], "script")
         elif "err" in r:
